@@ -84,28 +84,8 @@ pub mod tokio_util { pub mod io { pub use super::super::poll_read_buf; } }
 //@extract_const file=actix-codec/src/framed.rs name=LW
 //@extract_const file=actix-codec/src/framed.rs name=HW
 
-/// bitflags! { struct Flags: u8 { EOF, READABLE } } — modelled as two booleans with the set operations used
-#[derive(Clone, Copy)]
-pub struct Flags { pub eof: bool, pub readable: bool }
-
-impl Flags {
-    pub const EOF: Flags = Flags { eof: true, readable: false };
-    pub const READABLE: Flags = Flags { eof: false, readable: true };
-
-    pub fn empty() -> (r: Flags) ensures !r.eof && !r.readable { Flags { eof: false, readable: false } }
-
-    pub fn contains(&self, o: Flags) -> (r: bool)
-        ensures r == ((!o.eof || self.eof) && (!o.readable || self.readable)),
-    { (!o.eof || self.eof) && (!o.readable || self.readable) }
-
-    pub fn insert(&mut self, o: Flags)
-        ensures final(self).eof == (old(self).eof || o.eof), final(self).readable == (old(self).readable || o.readable),
-    { self.eof = self.eof || o.eof; self.readable = self.readable || o.readable; }
-
-    pub fn remove(&mut self, o: Flags)
-        ensures final(self).eof == (old(self).eof && !o.eof), final(self).readable == (old(self).readable && !o.readable),
-    { self.eof = self.eof && !o.eof; self.readable = self.readable && !o.readable; }
-}
+/// the real `bitflags!` set of framed.rs, generated (rule R20)
+//@bitflags file=actix-codec/src/framed.rs name=Flags
 
 //@check_struct file=actix-codec/src/framed.rs name=Framed fields=io,codec,flags,read_buf,write_buf
 pub struct Framed<T, U> {
